@@ -100,9 +100,10 @@ class FixedList(Shape):
     """list of a fixed number of symbolic elements (used for bounded-size configurations)."""
     kind = "fixedlist"
 
-    def __init__(self, *items, container="list"):
+    def __init__(self, *items, container="list", optional=False):
         self.items = items
         self.container = container
+        self.optional = optional      # each item present or not (symbolically): any sub-collection
 
 
 class SetOf(Shape):
@@ -344,3 +345,9 @@ def close(a, b):
 def elements(s):
     """The elements of a set in (some) iteration order."""
     return list(s)
+
+
+def new_pending_task():
+    """A task that is not done yet (spec vocabulary for interference: tasks added by someone else)."""
+    from native.bindings import FakeTask
+    return FakeTask(False, "returned")
